@@ -6,13 +6,13 @@ ROOT = os.path.dirname(os.path.dirname(os.path.abspath(__file__)))
 BASE = json.load(open("/root/.vp/BASELINE.json"))["cmd"] if os.path.exists("/root/.vp/BASELINE.json") else "cd /repo && go test -vet=off -count=1 ./..."
 
 T = {
- "C01": ("sys", "proof (partial): end-to-end own-reply theorem on the composed client/server/wire model over an assumed reliable ordered byte pipe, for any number of calls, completion orders and chunkings; correspondence by trace replay of the real Conn and Server over gated in-memory Messages. TCP/TLS and hslam/socket framing are validated, not verified.",
+ "C01": ("sys", "proof (partial): own-reply theorems on the client connection machine (under a peer rule) and on the composed system client machine x wire x server machine as one transition system with no hypothesis about the peer (Sys/Compose.v; the wire delivers in any order, never or repeatedly), for any number of calls, completion orders and interleavings; message-level wire theorem (frames and headers composed: any chunking, any cut); correspondence by trace replay of the real Conn and Server over gated in-memory Messages and end-to-end byte comparison. The server model carries request numbers and kinds, not payload bytes (a ghost owner table stands for them); TCP/TLS and hslam/socket framing are validated, not verified.",
          "proof over executable model + trace correspondence"),
  "C02": ("conn", "proof: at-most-once / error-stability / outcome invariants of the client connection machine for every interleaving (induction over traces), progress of the fair drain; correspondence by deterministic gated trace replay against the real Conn.",
          "inductive invariant over action traces + gated trace replay"),
- "C03": ("conn", "proof (partial): sweep / refusal / no-blocked-caller / received-wins theorems on the connection machine; wall-clock promptness is measured by the harness only.",
+ "C03": ("conn", "proof (partial): sweep / refusal / no-blocked-caller / received-wins theorems on the connection machine, and liveness as theorems about runs (from every reachable state in which the read direction has ended a finite run of the connection's own steps completes every call exactly once; assumes only that a socket write in progress returns); wall-clock promptness is measured by the harness only.",
          "inductive invariant over action traces + gated trace replay"),
- "C04": ("server", "proof (partial): exec-once / one-response / no-phantom theorems on the per-connection server machine in its four modes; poll-mode scheduling compared on final logs only. The clause 'the library never retries' is checked on the Transport by snapshot-step correspondence (one Call refines to one getConn and one registration) and by per-call execution counts under cut connections, not by a theorem of its own; arguments are compared byte for byte over header encoders x modes x sizes around every length-prefix boundary.",
+ "C04": ("server", "proof (partial): exec-once / one-response / no-phantom theorems, each response is the one its own request dictates, and run-level liveness (every queue drains; every request is eventually executed once and answered once if entered handlers return) on the per-connection server machine in its four modes; poll-mode scheduling compared on final logs only. The clause 'the library never retries' is checked on the Transport by snapshot-step correspondence (one Call refines to one getConn and one registration) and by per-call execution counts under cut connections, not by a theorem of its own; arguments are compared byte for byte over header encoders x modes x sizes around every length-prefix boundary.",
          "inductive invariant over server machine + trace replay"),
  "C05": ("server", "proof (partial): FIFO theorems for the single-worker queue transcription and order theorems for server and client pipelining; the real scheduler's goroutine hand-offs are exercised only; independence of connections (poll and non-poll listeners) is exercised over real sockets with several connections at once, not modelled.",
          "refinement to FIFO spec + trace replay"),
@@ -33,7 +33,7 @@ T = {
  "C17": ("lb", "proof (partial): round-robin window, random-in-live, heap-root-minimal, probe-rate and EWMA theorems; float64 rounding of the EWMA is compared with a tolerance.", "theorems on transcribed scheduler/heap + function-level differential"),
  "C18": ("lb", "proof (partial): no-stranded-waiter / close-now / error-kind theorems on the waiter machine; detection time is measured only.", "inductive invariant + scripted-health replay"),
  "C19": ("conn", "proof (partial): ctx-enabled / reply-first / no-recycle / isolation theorems on the connection machine; promptness while blocked in the kernel is not claimed; through the Transport (a call given up at its deadline leaves the pooled connection and its other calls alone) by snapshot-step correspondence with the pool machine.", "inductive invariant + gated trace replay"),
- "C20": ("life", "proof (partial): ledger-empties-after-close and idempotence theorems; goroutine exit itself is observed by the harness.", "progress of fair drain over resource ledger + lifecycle replay"),
+ "C20": ("life", "proof (partial): ledger-empties-after-close and idempotence theorems; the server teardown terminates (a finite run of own steps ends with ServeCodec returned, nothing queued or running, in the order read from the source and without fault); goroutine exit itself is observed by the harness.", "progress of fair drain over resource ledger + lifecycle replay"),
 }
 
 def main():
